@@ -45,8 +45,9 @@ def fits40(m):
 
 
 class LU:
-    def __init__(self, typ, defs, dim, mag, named, base=None, factors=()):
+    def __init__(self, typ, defs, dim, mag, named, base=None, factors=(), org=False):
         self.typ, self.defs, self.dim, self.mag, self.named = typ, defs, dim, mag, named
+        self.org = org  # carries an origin of its own (library units only)
         self.factors = factors  # library units a compound member is built from
         # the named unit that remains when an anonymous scaling is stripped: (type, magnitude)
         self.base = base if base is not None else (typ, mag)
@@ -113,8 +114,8 @@ def compound_list(rnd, groups, by_dim, families):
 def build_lists(units, rnd, n_lists):
     by_dim = {}
     for u in units:
-        if u.has_origin:
-            continue  # origins matter for point units only; keep C07 about quantity units
+        # (units that carry an origin - Celsius, Fahrenheit - are quantity units like any other;
+        #  the origin only takes part in the ordering of otherwise indistinguishable units)
         by_dim.setdefault(model.key(u.dim), []).append(u)
     dims = [k for k, v in by_dim.items() if len(v) >= 2]
     groups = compound_groups(units)
@@ -133,7 +134,9 @@ def build_lists(units, rnd, n_lists):
             continue
         irr = rnd.random() < 0.12
         n = rnd.choice([2, 2, 3, 3, 4])
-        dk = rnd.choice(dims)
+        # dimensions whose units carry origins get a fixed share: there are few of them
+        odims = [k for k in dims if any(u.has_origin for u in by_dim[k])]
+        dk = rnd.choice(odims) if odims and rnd.random() < 0.12 else rnd.choice(dims)
         lib = by_dim[dk]
         base = rnd.choice(lib)
         members = []
@@ -141,7 +144,7 @@ def build_lists(units, rnd, n_lists):
             r = rnd.random()
             if r < 0.45:
                 u = rnd.choice(lib)
-                members.append(LU("au::%s" % u.name, "", u.dim, u.mag, True))
+                members.append(LU("au::%s" % u.name, "", u.dim, u.mag, True, org=u.has_origin))
             else:
                 for _ in range(20):
                     sm = rnd_mag(rnd, big=rnd.random() < 0.4)
@@ -170,8 +173,8 @@ def build_lists(units, rnd, n_lists):
         bad = len(members) < 2
         for a, b in itertools.combinations(members, 2):
             # two distinct NAMED units of identical magnitude: the documented limitation
-            if a.named and b.named and model.key(a.mag) == model.key(b.mag) and a.typ != b.typ:
-                bad = True
+            if a.named and b.named and model.key(a.mag) == model.key(b.mag) and a.typ != b.typ and a.org == b.org:
+                bad = True  # (Kelvins and Celsius tie on magnitude but differ in origin: orderable)
             # ... and so are the named units left after stripping anonymous scalings (Hertz vs Becquerel)
             if model.key(a.base[1]) == model.key(b.base[1]) and a.base[0] != b.base[0]:
                 bad = True
@@ -235,13 +238,15 @@ def body(ctx):
     nirr = sum(1 for it in items if not it.meta["rational"])
     ncomp = sum(1 for l in lists if any(m.factors for m in l))
     ntie = sum(1 for l in lists if any(model.key(a.mag) == model.key(b.mag) for a, b in itertools.combinations(l, 2)))
+    norg = sum(1 for l in lists if any(m.org for m in l))
+    ctx.require(norg >= len(lists) // 40, "only %d lists with an origin-carrying unit" % norg)
     ctx.require(ncomp >= len(lists) // 10, "only %d lists with compound units" % ncomp)
     ctx.require(ntie >= len(lists) // 25, "only %d lists with two members of equal magnitude" % ntie)
     ctx.coverage.update(dict(
         evaluations=len(items) * len(configs), distinct_nontrivial=len(items),
         rule="one program per seeded list of 2-4 same-dimension units (library units, named and anonymous scaled units with numerators/denominators below 2^40, pi and root factors); plus, in every fifth list, anonymous products/quotients of library units of one dimension (N*m, W*s, J, scaled forms; equal magnitudes preferred) and respelled scalings of equal magnitude; asserts integer ratios, exact gcd magnitude read out of the type, identity under every permutation and repetition, winner-is-an-input, nesting equivalence, std::common_type; lists in which two distinct NAMED units of identical magnitude meet are excluded",
         samples=[dict(key=items[0].key, code=items[0].code)], exhaustive=False,
-        lists=len(items), lists_irrational=nirr, lists_skipped_collision=skipped, lists_compound=ncomp, lists_equal_magnitude_tie=ntie, mismatches=nbad, configs=[c.name for c in configs], engine_stats=stats))
+        lists=len(items), lists_irrational=nirr, lists_skipped_collision=skipped, lists_compound=ncomp, lists_with_origin_unit=norg, lists_equal_magnitude_tie=ntie, mismatches=nbad, configs=[c.name for c in configs], engine_stats=stats))
     ctx.assumptions += ["'largest' is decided as: the common unit's magnitude equals the base-wise minimum of the inputs' exponents (missing base = 0)"]
 
 
